@@ -213,6 +213,19 @@ def check(env, rep, tier):
                     if b_.ghost.get(("inj", "item-open")) and not b_.ghost.get("echoed"):
                         bad.append({"file": clone["span"]["f"], "line": clone["span"]["l"], "fn": clone["path"]})
             I.loop_hooks.append(lhook)
+
+            # the same copy spelled as options().for_each(|entry| ..): the closure is applied to every entry, so every
+            # path through the closure must make the copy
+            def entry_closure_ret(I_, ctx, outs):
+                for s_, _ in outs:
+                    n_items[0] += 1
+                    if not s_.ghost.get("echoed"):
+                        bad.append({"file": clone["span"]["f"], "line": clone["span"]["l"], "fn": clone["path"]})
+                    s_.ghost.pop("echoed", None)
+            for ob in prog.bodies.values():
+                if not ob.get("promoted") and ob["path"].startswith(clone["path"] + "::{closure"):
+                    I.return_hooks[ob["id"]] = entry_closure_ret
+                    I.no_join_bodies.add(ob["id"])
             I.no_join_bodies.add(clone["id"])
             I.unroll_max_blocks = 0
             I, cres = run(prog, clone, args=cargs, st=st, I=I, gargs=gargs)
